@@ -22,8 +22,20 @@ def gen_case(rng):
     how = rng.choice(FORMATS[fmt])
     potable = how in ("config", "cli")
     m = eamlib.gen_model(rng, fs=True, potable=potable, kmax=(4 if fmt != "DL_POLY_EAM_fs" else 4))
+    redeclare = None
+    if potable and how == "config" and fmt != "excel_eam_fs" and rng.random() < 0.5:
+        # "config-redeclare": the objects built from the file are re-used through the API - one ordered slot A->B is given a new function before writing - and ONLY that slot
+        # may change (round-9 seed C04_13: species without a density row of their own sharing one zero dictionary).  Models with several row-less central species are made likely.
+        how = "config-redeclare"
+        if len(m["els"]) >= 3 and rng.random() < 0.7:
+            for a in rng.sample(m["els"], rng.randint(2, len(m["els"]) - 1)):
+                for b in m["dens"][a]:
+                    m["dens"][a][b] = None
     if potable:
         eamlib.make_potable_variants(rng, m)
+    if how == "config-redeclare":
+        redeclare = (rng.choice(m["els"]), rng.choice(m["els"]), 7000 + rng.randint(1, 99))
+        return dict(route="%s/%s" % (fmt, how), fmt=fmt, how=how, model=m, target=fmt, api_variant=None, redeclare=redeclare)
     # (dictionaries with __missing__ are not given to the Excel classes: they list a dictionary's items instead of looking entries up - outside this property's formats' contract)
     return dict(route="%s/%s" % (fmt, how), fmt=fmt, how=how, model=m, target=fmt, api_variant=None if potable else eamlib.api_variant(rng, m, allow_missing_dict=(fmt != "excel_eam_fs")))
 
@@ -50,6 +62,19 @@ def run_impl(case):
             eamlib.write_second_time(Excel_FinnisSinclair_EAMTabulation(*args), s)
         return "ok", s.getvalue()
     cfg = eamlib.cfg_text(m, fmt)
+    if how == "config-redeclare":
+        def go():
+            from atsim.potentials.config import Configuration
+            tab = Configuration().read(io.StringIO(cfg))
+            a, b, f = case["redeclare"]
+            for p in tab.eam_potentials:
+                if p.species == a:
+                    p.electronDensityFunction[b] = eamlib.Tr(f)
+            buf = io.StringIO()
+            tab.write(buf)
+            return buf.getvalue()
+        oc, v = impl.outcome_of(go)
+        return oc, (v if oc == "ok" else None)
     if how == "cli":
         r = impl.potable_cli(cfg, binary=binary)
         if r["rc"] == 0:
@@ -61,7 +86,11 @@ def run_impl(case):
 
 def model_request(case):
     m, fmt, how = case["model"], case["fmt"], case["how"]
-    potable = how in ("config", "cli")
+    potable = how in ("config", "cli", "config-redeclare")
+    if how == "config-redeclare":
+        a, b, f = case["redeclare"]
+        m = dict(m)
+        m["dens_decl"] = [d for d in m["dens_decl"] if (d[0], d[1]) != (a, b)] + [(a, b, f)]
     if fmt == "setfl_fs":
         return eamlib.request(m, "setfl", False, **eamlib.direct_args(m)) if how == "func" else eamlib.request(m, "setflTab", potable, **eamlib.tab_args(m))
     if fmt == "DL_POLY_EAM_fs":
@@ -110,6 +139,8 @@ def cluster_check(run, case, toks):
         for (nb, k) in neighbours:
             got.append(density_slot_from_file(case["fmt"], toks, central, nb, k))
             f = m["dens"][central].get(nb)
+            if case.get("redeclare") and case["redeclare"][:2] == (central, nb):
+                f = case["redeclare"][2]
             want.append("0" if not f else [f, fq(k * dr)])
         if got != want:
             return "site density of a %s atom with neighbours %s computed from the file by the %s consumer rule is the formal sum %s, from the model %s" % (
